@@ -23,3 +23,12 @@ class VRednTag(Tag):
 @tag_dataclass
 class VUniqueTag(UniqueTag):
     ident: int
+
+
+import dataclasses as _dc
+
+
+@_dc.dataclass(frozen=True)
+class CommTag:
+    """A user-defined hashable communication tag (C08-C10, C17)."""
+    ident: int
